@@ -1,9 +1,11 @@
 use crate::engine::Property;
 
+pub mod c01;
+pub mod c02;
 pub mod c15;
 pub mod c16;
 pub mod c17;
 
 pub fn all() -> Vec<Property> {
-    vec![c15::property(), c16::property(), c17::property()]
+    vec![c01::property(), c02::property(), c15::property(), c16::property(), c17::property()]
 }
